@@ -80,7 +80,7 @@ def sig_shapes(maxn: int):
                             yield npo, npk, vp, nko, vk
 
 
-def make_sig(shape, rng: random.Random, all_annotated=False):
+def make_sig(shape, rng: random.Random, all_annotated=False, bare_var=False):
     npo, npk, vp, nko, vk = shape
     kinds = ["PO"] * npo + ["PK"] * npk + ["VP"] * vp + ["KO"] * nko + ["VK"] * vk
     npos = npo + npk
@@ -96,6 +96,8 @@ def make_sig(shape, rng: random.Random, all_annotated=False):
         else:
             d = False
         ann = anns[i % len(anns)] if (all_annotated or rng.random() < 0.8) else None
+        if bare_var and k in ("VP", "VK"):
+            ann = None              # a bare *args / **kwargs: extras must arrive untouched
         sig.append({"name": f"p{i}", "kind": k, "default": d, "ann": ann})
     return sig
 
@@ -466,7 +468,7 @@ def failure_key(f):
 def search(run: lib.Run, broken):
     rng = random.Random(run.seed + 1)
     shapes = list(sig_shapes(5))
-    per_shape_sigs = run.budget(1, 4)
+    per_shape_sigs = run.budget(2, 5)
     call_limit = run.budget(40, None)
     if broken:
         per_shape_sigs = max(per_shape_sigs, 3)
@@ -475,7 +477,7 @@ def search(run: lib.Run, broken):
     truth_seen = set()
     for shape in shapes:
         for rep in range(per_shape_sigs):
-            sig = make_sig(shape, rng, all_annotated=(rep == 0))
+            sig = make_sig(shape, rng, all_annotated=(rep == 0), bare_var=(rep == 1))
             ns, src = build_forms(sig)
             nsig += 1
             truth_seen.add(tuple(bool(x) for x in shape))
